@@ -559,12 +559,12 @@ Definition keys_of (v : jval) : list bytes :=
 
 (* ------------------------------------------------------------------ correspondence entry point *)
 
-(** (length, polynomial checksum) of a text: the correspondence compares these instead of
-    printing every byte (Coq's printer is the bottleneck); a mismatch is re-run in full. *)
-Definition digest (bs : bytes) : N * N :=
-  (N.of_nat (length bs),
-   fold_left (fun acc b => (acc * 1000003 + b + 1) mod 2305843009213693951) bs 7).
-Definition odigest (o : option bytes) : option (N * N) :=
+(** (length, sum, sum of prefix sums) of a text: the correspondence compares these instead of
+    printing every byte (Coq's parser/printer is the bottleneck); a mismatch is re-run in full. *)
+Definition digest (bs : bytes) : N * N * N :=
+  let '(a, c) := fold_left (fun '(a, c) b => let a' := a + b + 1 in (a', c + a')) bs (0, 0) in
+  (N.of_nat (length bs), a, c).
+Definition odigest (o : option bytes) : option (N * N * N) :=
   match o with Some bs => Some (digest bs) | None => None end.
 
 (** every producing path of one value, in the order props/c05.py expects *)
